@@ -127,6 +127,17 @@ def run_cases(chk, binp, cases, pf_ok, pf):
                 if ".example" in m and m not in explained and not any(w.search(m) for w in WRAPPERS):
                     viol.append((c, "a warning about an example is reported that no rejected example accounts for", {"message": m}))
                     break
+            # with the early stop nothing ends validation before the default and example passes when the earlier passes
+            # report nothing: the same defaults and examples are reported in both modes
+            others = [m for m in full["errors"] if m not in explained and not any(w.search(m) for w in WRAPPERS)]
+            if not others:
+                stop = runs["cont=false"]
+                stop_ex = set(stop["warnings"]) | set(stop["errs_warnings"])
+                lost = sorted(m for m in go_msgs["example"] if ".example" in m and m in explained and m not in stop_ex)
+                lost_d = sorted(m for m in full["errors"] if m in explained and m not in set(stop["errors"]))
+                if lost or lost_d:
+                    viol.append((c, "a rejected %s is reported with continue-on-errors only, although no earlier pass reports an error"
+                                 % ("example" if lost else "default"), {"missing_without_continue_on_errors": (lost or lost_d)[:4]}))
             # verdict with the early stop: a reported default makes the document invalid in both modes
             if any(s["judged"] == 2 and s["kind"] == "default" and s["id"] in rep for s in sites) and runs["cont=false"]["valid"]:
                 viol.append((c, "a rejected default is reported with continue-on-errors only", {}))
